@@ -342,5 +342,6 @@ package eval
 //@   exit [stably-sorted-before-output] ncallsof("ValueOutput.Put") > 0 ==> ncallsof("sort.Stable") == 1
 //@   exit [reverse-option] ncallsof("sort.Stable") == 1 ==> (ncallsof("sort.Reverse") == 1) == opts.Reverse
 //@   exit [no-output-unless-sorting-succeeded] !(result === nil) ==> ncallsof("ValueOutput.Put") == 0 || result === callerr(ncalls - 1)
+//@   exit [sort-error-reported-and-nothing-output] ncallsof("sort.Stable") == 1 && !(s.err === nil) ==> result === s.err && ncallsof("ValueOutput.Put") == 0
 //@   exit [all-values-output] result === nil ==> ncallsof("ValueOutput.Put") == len(values)
 //@   exit [output-in-sorted-order] result === nil ==> (forall k int :: 0 <= k && k < len(values) ==> callis(ncalls - len(values) + k, "ValueOutput.Put") && callarg(ncalls - len(values) + k) === values[k])
